@@ -527,6 +527,18 @@ def gen_directed_pairs():
             if posflag == "hyphen" and any(t in (b"-Oval", b"-qOval") for t in a):
                 continue        # under a hyphen-value positional a cluster with an undefined character (`-Oval`) is a VALUE
             out.append(mark_equal(respell_sx(c, [b"prog"] + a, [b"prog"] + b)))
+    # an explicit `--` before positionals that do not look like flags, at a level with low-index multiples
+    # (`<sources>... <target>`) (seeded change seed2/C08-1: the look-ahead that moves
+    # the current value to the next positional must not take the bare `--` for a new argument)
+    cp = {"name": b"p", "about": b"A:p", "groups": [], "aliases": [], "settings": [], "subs": [],
+          "args": [{"id": b"f", "short": "f", "action": "settrue", "flags": set()},
+                   {"id": b"sources", "num": (1, None), "flags": {"required"}}, {"id": b"target", "flags": {"required"}}]}
+    # (under allow_missing_positional `--` is NOT neutral: it is documented to skip to the last positional)
+    for c, lines in ((cp, [([b"a", b"b", b"dest"], [b"a", b"b", b"--", b"dest"]), ([b"a", b"b", b"dest"], [b"--", b"a", b"b", b"dest"]),
+                           ([b"a", b"b", b"dest"], [b"a", b"--", b"b", b"dest"]), ([b"-f", b"a", b"dest"], [b"-f", b"a", b"--", b"dest"]),
+                           ([b"a", b"dest"], [b"a", b"--", b"dest"])]),):
+        for a, b in lines:
+            out.append(mark_equal(respell_sx(c, [b"prog"] + a, [b"prog"] + b)))
     return out
 
 
